@@ -338,7 +338,17 @@ func TestReplay(t *testing.T) {
 	fmt.Printf("replay of %s: property holds on this case\n", p)
 }
 
-// TestReplayDir re-runs every saved replay of one property (the seconds-long regression tier).
+// TestSavedReplays is the seconds-long regression tier of every property: the minimal failing cases harvested from
+// repaired defects and from seeded changes (replays/<ID>/*.json) are re-executed through the same oracles.
+func TestSavedReplays(t *testing.T) {
+	prop := os.Getenv("VERIF_PROP")
+	if prop == "" {
+		t.Skip("VERIF_PROP not set")
+	}
+	replaySaved(t, prop)
+}
+
+// replaySaved re-runs every saved replay of one property.
 func replaySaved(t *testing.T, prop string) {
 	dir := filepath.Join("..", "..", "replays", prop)
 	ents, err := os.ReadDir(dir)
@@ -346,6 +356,7 @@ func replaySaved(t *testing.T, prop string) {
 		return
 	}
 	c := coll(prop, "saved-replays")
+	c.Rule = "saved minimal cases (replays/" + prop + "/*.json: shrunk failures of repaired defects and of seeded changes) re-executed without any generator"
 	for _, e := range ents {
 		if !strings.HasSuffix(e.Name(), ".json") {
 			continue
@@ -362,7 +373,8 @@ func replaySaved(t *testing.T, prop string) {
 		if !ok {
 			continue
 		}
-		c.eval(false, 0, "saved-replay")
+		c.eval(true, hash64(e.Name()), "saved-replay")
+		c.sample(func() any { return e.Name() })
 		if msg := fn(rf.Case); msg != "" {
 			violation(t, prop, rf.Kind, rf.Case, "saved replay "+e.Name()+" fails again:\n"+msg)
 		}
